@@ -170,6 +170,10 @@ def one_step_law(ctx):
         rep = dict(entry="Gillespie_complex_contagion", stream="one-step-law", case=strip(c))
         try:
             agg = symu.Explorer(14).run(fn2)
+        except symu.Budget:
+            ctx.count("law:enumeration-budget-exceeded")
+            ctx.case(rep, nontrivial=False)
+            continue
         except Exception as e:
             ctx.violation("complex contagion raised %s during law enumeration" % type(e).__name__, dict(rep, error=type(e).__name__))
             continue
